@@ -70,6 +70,14 @@ def check_case(case, ctx):
             continue
         with monitor.suspended():
             changed = not (res == c)
+            if res is not c:
+                from vt import wf as _wf
+                snap = _wf.deep_snapshot(c)
+                netgen.scribble(res, rng)
+                if _wf.deep_snapshot(c) != snap:
+                    ctx.violation('simplification:%s' % form, 'wrong_result', 'result_shares_state_with_argument',
+                                  'editing the returned circuit changed the argument circuit', dict(case, failing=[form, desc]))
+                ctx.count('result_scribbled')
         if changed:
             ctx.count('changed')
         ctx.count('form:' + ('pipe' if form in ('transform', 'composition') and not isinstance(desc, str) else form))
